@@ -89,6 +89,8 @@ FUNCTIONS = [
     ('sql_update_keys', 'dataflows.processors.dumpers.to_sql', ['SQLDumper', 'process_resource', '@if:0', '@else', '@if:2'],
      ['mode', 'converted_resource', 'schema_descriptor', 'update_keys']),
     # parallelize: one turn of the fetcher's loop (the queues as values)
+    ('par_producer_loop', 'dataflows.processors.parallelize', ['producer', '@try:0', '@for:0'],
+     ['res', 'q_in', 'q_internal']),
     ('par_fetcher_body', 'dataflows.processors.parallelize', ['fetcher', '@while:0', '@body'],
      ['q_out', 'q_internal', 'expected_nones']),
     # concatenate: the source-field -> target-field mapping
@@ -508,6 +510,13 @@ def locate(tree, path):
             if not ifs or not (-len(ifs) <= k < len(ifs)):
                 return None
             node = ifs[k]
+            continue
+        if name.startswith('@try:'):
+            tries = [st for st in getattr(node, 'body', []) if isinstance(st, ast.Try)]
+            k = int(name[5:])
+            if not tries or not (-len(tries) <= k < len(tries)):
+                return None
+            node = tries[k]
             continue
         if name.startswith('@while:'):
             whiles = [st for st in getattr(node, 'body', []) if isinstance(st, ast.While)]
